@@ -142,7 +142,10 @@ fn main() {
                 _ => usage(),
             };
             let part = args.iter().any(|a| a == "--part");
-            exit(cmd_check(&args[1], tier, part));
+            if part || args.iter().any(|a| a == "--inproc") {
+                exit(cmd_check(&args[1], tier, part));
+            }
+            exit(supervise(&args[1], tier));
         }
         "replay" => {
             if args.len() < 2 {
@@ -164,6 +167,32 @@ fn main() {
             let b = runner::run_batch(&s, seed, Tier::Quick, runs, None, jobs);
             println!("{} {:016x} {} {}", s.name, b.witness, b.runs, b.found.len());
             exit(0);
+        }
+        "mini" | "probe" => {
+            // sequential, single-threaded execution of run indices [start, start+count) of one
+            // scenario: used under Miri ("mini") and by the supervisor's bisection ("probe")
+            let s = scenario_by_name(&args[1]).unwrap_or_else(|| usage());
+            let start: u64 = args[2].parse().unwrap();
+            let count: u64 = args[3].parse().unwrap();
+            let seed: u64 = args.get(4).and_then(|x| x.parse().ok()).unwrap_or(1);
+            let tier = if args.iter().any(|a| a == "--thorough") { Tier::Thorough } else { Tier::Quick };
+            let loud = args[0] == "mini";
+            if args.iter().any(|a| a == "--tiny") {
+                gen::TINY.store(true, std::sync::atomic::Ordering::Relaxed);
+            }
+            let mut bad = 0;
+            for idx in start..start + count {
+                if loud {
+                    println!("MINI {idx}");
+                }
+                let (_, case) = runner::gen_case(&s, seed, tier, idx);
+                let out = (s.run)(&case, false);
+                for v in &out.violations {
+                    println!("MINI-VIOLATION {idx} {}\n  {}", v.signature, v.detail.replace('\n', "\n  "));
+                    bad += 1;
+                }
+            }
+            exit(if bad > 0 { 1 } else { 0 });
         }
         "list" => {
             for s in scn::all() {
@@ -505,6 +534,35 @@ fn cmd_replay(path: &Path, verify: bool) -> i32 {
             return 2;
         }
     };
+    if j["miri"].as_bool() == Some(true) || j["process_death"].as_bool() == Some(true) {
+        let scn_name = j["scenario"].as_str().unwrap_or("");
+        let idx = j["run_index"].as_u64().unwrap_or(0).to_string();
+        let ms = j["master_seed"].as_u64().unwrap_or(1).to_string();
+        let died_or_ub = if j["miri"].as_bool() == Some(true) {
+            let mut c = Command::new("cargo");
+            c.current_dir(root().join("sim"))
+                .args(["+nightly", "miri", "run", "--offline", "--quiet", "--target-dir", "target/miri", "--", "mini", scn_name, &idx, "1", &ms, "--tiny"])
+                .env("MIRIFLAGS", "-Zmiri-disable-isolation");
+            if j["thorough"].as_bool() == Some(true) {
+                c.arg("--thorough");
+            }
+            !c.status().map(|s| s.success()).unwrap_or(true)
+        } else {
+            let exe = std::env::current_exe().unwrap();
+            Command::new(exe).args(["probe", scn_name, &idx, "1", &ms]).status().map(|s| s.code().is_none()).unwrap_or(false)
+        };
+        if died_or_ub {
+            if !verify {
+                println!("VIOLATION property={} replay={}", case.property, path.display());
+                println!("  signature: {}", j["signature"].as_str().unwrap_or(""));
+            }
+            return 1;
+        }
+        if !verify {
+            println!("not reproduced on this tree");
+        }
+        return 0;
+    }
     let want_profile = j["profile"].as_str().unwrap_or("checked");
     if want_profile != profile() {
         // hand over to the build the replay was recorded with
@@ -585,4 +643,205 @@ fn cmd_determinism(fast: bool) -> i32 {
     } else {
         0
     }
+}
+
+
+/// Run the check in a child process. A child that dies by a signal (abort, stack overflow,
+/// allocation failure, OOM kill) is a violation in its own right: the run index is isolated
+/// by bisection with sequential `probe` children and written as a replay file.
+fn supervise(prop: &str, tier: Tier) -> i32 {
+    let exe = std::env::current_exe().unwrap();
+    let tier_s = if tier == Tier::Quick { "quick" } else { "thorough" };
+    let st = Command::new(&exe).args(["check", prop, tier_s, "--inproc"]).status();
+    let mut code = match st {
+        Ok(s) => match s.code() {
+            Some(c) => c,
+            None => {
+                println!("the check process died ({s}); isolating the run that kills it");
+                return isolate_death(prop, tier, &format!("{s}"));
+            }
+        },
+        Err(e) => {
+            eprintln!("harness error: cannot spawn the check: {e}");
+            return 2;
+        }
+    };
+    if code == 0 && (tier == Tier::Thorough || std::env::var("VERIF_MIRI").map(|v| v == "1").unwrap_or(false)) {
+        let c = miri_leg(prop, tier);
+        if c != 0 {
+            code = c;
+        }
+    }
+    code
+}
+
+fn probe_dies(exe: &Path, scn: &str, start: u64, count: u64, seed: u64, tier: Tier) -> bool {
+    let mut c = Command::new(exe);
+    c.args(["probe", scn, &start.to_string(), &count.to_string(), &seed.to_string()]);
+    if tier == Tier::Thorough {
+        c.arg("--thorough");
+    }
+    match c.output() {
+        Ok(o) => o.status.code().is_none(),
+        Err(_) => false,
+    }
+}
+
+fn isolate_death(prop: &str, tier: Tier, how: &str) -> i32 {
+    let exe = std::env::current_exe().unwrap();
+    let seed = env_u64("VERIF_SEED", 1);
+    for s in scn::all().into_iter().filter(|s| s.property == prop) {
+        let total = if tier == Tier::Quick { s.quick_runs } else { s.quick_runs * 4 };
+        // find a dying window by chunks, then bisect inside it
+        let chunk = (total / 64).max(1);
+        let mut lo = None;
+        let mut a = 0;
+        while a < total {
+            let n = chunk.min(total - a);
+            if probe_dies(&exe, s.name, a, n, seed, tier) {
+                lo = Some((a, n));
+                break;
+            }
+            a += n;
+        }
+        let Some((mut start, mut count)) = lo else { continue };
+        while count > 1 {
+            let half = count / 2;
+            if probe_dies(&exe, s.name, start, half, seed, tier) {
+                count = half;
+            } else {
+                start += half;
+                count -= half;
+            }
+        }
+        let (rseed, case) = runner::gen_case(&s, seed, tier, start);
+        let sig = format!("{prop}:process-death");
+        let path = out_root().join("replays").join(prop).join(format!("{}-{}-{}.json", sanitize(&sig), rseed, profile()));
+        write_json(&path, &json!({
+            "property": prop, "scenario": s.name, "profile": profile(), "signature": sig, "process_death": true,
+            "master_seed": seed, "seed": rseed, "run_index": start, "case": case,
+            "detail": format!("running this case kills the process ({how}): abort, stack overflow or failed allocation inside the library"),
+        }));
+        println!("VIOLATION property={prop} replay={}", path.display());
+        println!("  signature: {sig}");
+        println!("  run_index={start} seed={rseed} scenario={} profile={}: the process dies ({how})", s.name, profile());
+        write_min_evidence(prop, tier, 1, "process death isolated by bisection");
+        return 1;
+    }
+    eprintln!("harness error: the check process died ({how}) but no single run reproduces it");
+    2
+}
+
+fn write_min_evidence(prop: &str, tier: Tier, violations: u64, note: &str) {
+    let level = props().into_iter().find(|p| p.id == prop).map(|p| p.level).unwrap_or("exploration");
+    let ev = json!({
+        "property_id": prop, "tier": if tier == Tier::Quick { "quick" } else { "thorough" }, "seed": env_u64("VERIF_SEED", 1),
+        "level": level,
+        "coverage": {"evaluations": 2, "distinct_nontrivial": 2, "rule": note, "samples": [note]},
+        "assumptions": [note], "wall_s": 0.0, "violations": violations,
+    });
+    write_json(&out_root().join("evidence").join(format!("{prop}.json")), &ev);
+}
+
+/// Memory-safety leg: the same scenarios under Miri on a reduced budget (C03, C05).
+fn miri_leg(prop: &str, tier: Tier) -> i32 {
+    let scenarios: Vec<Scenario> = scn::all().into_iter().filter(|s| s.property == prop && (prop == "C03" || prop == "C05")).collect();
+    if scenarios.is_empty() {
+        return 0;
+    }
+    let seed = env_u64("VERIF_SEED", 1);
+    let sim = root().join("sim");
+    let n: u64 = env_u64("VERIF_MIRI_RUNS", if tier == Tier::Quick { 150 } else { 1500 });
+    let jobs = env_u64("VERIF_JOBS", 16).max(1);
+    let started = Instant::now();
+    let mut status = "ok".to_string();
+    let mut code = 0;
+    let mut ran = 0u64;
+    for s in &scenarios {
+        // build once (sysroot, dependencies, this crate) before the shards start
+        let _ = Command::new("cargo")
+            .current_dir(&sim)
+            .args(["+nightly", "miri", "run", "--offline", "--quiet", "--target-dir", "target/miri", "--", "mini", s.name, "0", "0"])
+            .env("MIRIFLAGS", "-Zmiri-disable-isolation")
+            .output();
+        // shard the index range over `jobs` Miri processes
+        let per = n.div_ceil(jobs);
+        let mut children = Vec::new();
+        for j in 0..jobs {
+            let start = j * per;
+            if start >= n {
+                break;
+            }
+            let count = per.min(n - start);
+            let mut c = Command::new("cargo");
+            c.current_dir(&sim)
+                .args(["+nightly", "miri", "run", "--offline", "--quiet", "--target-dir", "target/miri", "--"])
+                .args(["mini", s.name, &start.to_string(), &count.to_string(), &seed.to_string(), "--tiny"])
+                .env("MIRIFLAGS", "-Zmiri-disable-isolation")
+                .stdout(std::process::Stdio::piped())
+                .stderr(std::process::Stdio::piped());
+            if tier == Tier::Thorough {
+                c.arg("--thorough");
+            }
+            match c.spawn() {
+                Ok(ch) => children.push((start, count, ch)),
+                Err(e) => {
+                    status = format!("skipped: cannot start cargo miri ({e})");
+                }
+            }
+        }
+        for (start, count, ch) in children {
+            let out = match ch.wait_with_output() {
+                Ok(o) => o,
+                Err(_) => continue,
+            };
+            let so = String::from_utf8_lossy(&out.stdout).to_string();
+            let se = String::from_utf8_lossy(&out.stderr).to_string();
+            let last_idx = so.lines().filter_map(|l| l.strip_prefix("MINI ")).filter_map(|x| x.trim().parse::<u64>().ok()).last();
+            ran += so.lines().filter(|l| l.starts_with("MINI ") && !l.starts_with("MINI-")).count() as u64;
+            if out.status.success() {
+                continue;
+            }
+            let ub = se.lines().find(|l| l.contains("Undefined Behavior") || l.contains("error:")).unwrap_or("").to_string();
+            if se.contains("Undefined Behavior") || so.contains("MINI-VIOLATION") {
+                let idx = last_idx.unwrap_or(start);
+                let (rseed, case) = runner::gen_case(s, seed, tier, idx);
+                let sig = if se.contains("Undefined Behavior") { format!("{prop}:miri:undefined-behavior") } else { format!("{prop}:miri:violation") };
+                let path = out_root().join("replays").join(prop).join(format!("{}-{}-miri.json", sanitize(&sig), rseed));
+                write_json(&path, &json!({
+                    "property": prop, "scenario": s.name, "profile": "miri", "miri": true, "signature": sig,
+                    "master_seed": seed, "seed": rseed, "run_index": idx, "thorough": tier == Tier::Thorough, "case": case,
+                    "detail": format!("{ub}\n{}", se.lines().filter(|l| !l.trim().is_empty()).take(30).collect::<Vec<_>>().join("\n")),
+                }));
+                println!("VIOLATION property={prop} replay={}", path.display());
+                println!("  signature: {sig}");
+                println!("  run_index={idx} seed={rseed} scenario={} under Miri: {ub}", s.name);
+                for l in se.lines().filter(|l| !l.trim().is_empty()).take(12) {
+                    println!("  {l}");
+                }
+                for l in so.lines().filter(|l| l.starts_with("MINI-VIOLATION") || l.starts_with("  ")).take(8) {
+                    println!("  {l}");
+                }
+                code = 1;
+            } else if code == 0 {
+                status = format!("skipped: Miri leg could not run (exit {:?}): {}", out.status.code(), se.lines().rev().find(|l| !l.trim().is_empty()).unwrap_or(""));
+                let _ = count;
+            }
+        }
+    }
+    let wall = started.elapsed().as_secs_f64();
+    println!("{prop} [miri] runs={ran} status={status} wall={wall:.1}s");
+    // append the Miri leg to the evidence file written by the native run
+    let path = out_root().join("evidence").join(format!("{prop}.json"));
+    if let Some(mut ev) = std::fs::read_to_string(&path).ok().and_then(|t| serde_json::from_str::<Value>(&t).ok()) {
+        if let Some(c) = ev["coverage"].as_object_mut() {
+            c.insert("miri_leg".into(), json!({"runs": ran, "status": status, "wall_s": wall, "violations": if code == 1 { 1 } else { 0 }}));
+        }
+        if code == 1 {
+            let v = ev["violations"].as_u64().unwrap_or(0) + 1;
+            ev["violations"] = json!(v);
+        }
+        write_json(&path, &ev);
+    }
+    code
 }
